@@ -15,6 +15,7 @@ import (
 
 	"github.com/libp2p/go-libp2p/core/network"
 	"github.com/libp2p/go-libp2p/core/peer"
+	"github.com/libp2p/go-libp2p/core/protocol"
 )
 
 func TestVerifC07Mesh(t *testing.T) {
@@ -130,6 +131,25 @@ func TestVerifC07Mesh(t *testing.T) {
 				structural(s1, "after heartbeat")
 				now := s1.T
 				oppTick := uint64(k)%params.OpportunisticGraftTicks == 0
+				// the pre-tick snapshot may be up to a heartbeat old: a stream that was (re)opened or closed
+				// between it and the tick changes what the router knows about the peer's protocol
+				protoAtTick := func(p peer.ID) protocol.ID {
+					pr := s0.Peers[p]
+					for _, e := range evs {
+						if e.Peer != p {
+							continue
+						}
+						switch e.Kind {
+						case "newout":
+							pr = protocol.ID(e.Reason)
+						case "closedout":
+							pr = ""
+						case "graft":
+							return pr
+						}
+					}
+					return pr
+				}
 				// wire: GRAFT / PRUNE per puppet and topic since the pre-tick marks
 				grafted, pruned := map[string]bool{}, map[string]bool{}
 				for j, gp := range w.pups {
@@ -280,7 +300,7 @@ func TestVerifC07Mesh(t *testing.T) {
 						switch {
 						case s0.Topics[tn] == nil:
 							why = "not_in_topic"
-						case !GossipSubDefaultFeatures(GossipSubFeatureMesh, s0.Peers[p]):
+						case !GossipSubDefaultFeatures(GossipSubFeatureMesh, protoAtTick(p)):
 							why = "not_mesh_capable"
 						case w.score(p) < 0:
 							why = "negative_score"
@@ -288,7 +308,7 @@ func TestVerifC07Mesh(t *testing.T) {
 						if _, ok := s0.Topics[tn][p]; !ok && why == "" {
 							why = "not_in_topic"
 						}
-						if _, ok := s0.Peers[p]; !ok && why == "" {
+						if protoAtTick(p) == "" && why == "" {
 							why = "not_connected"
 						}
 						if _, d := s0.Direct[p]; d && why == "" {
